@@ -25,7 +25,7 @@ func init() {
 		Assumptions: []string{
 			"oracle: map[int]bool with the literal definitions of the set operations, cross-checked against bit-mask arithmetic; sort.Ints of the standard library for ints.Sort",
 			"Range(start,end,step) is read as documented: the elements start + i*step (i >= 0) from start (inclusive) towards end (exclusive), returned increasing; the three 'Infinite set' conditions of the code must panic; start == end is the empty set",
-			"Complement(n, a) for n < 0 and Range near the limits of int are not exercised (unbounded allocation), see the report",
+			"Complement(n, a) for n < 0 is not fixed by the documentation and not exercised; Range is exercised up to the limits of int with small results only",
 		},
 		Run:            run,
 		MinEvaluations: map[string]int{"quick": 150000, "thorough": 1500000},
@@ -553,6 +553,8 @@ func (m *mon) rangeCase(start, end, step int) {
 		m.class = "infinite"
 	case end == start:
 		m.class = "empty"
+	case step > 1<<32 || step < -(1<<32):
+		m.class = "step near the limits of int"
 	case end < start:
 		m.class = "descending"
 	default:
@@ -835,8 +837,9 @@ func run(c *engine.Ctx) {
 			gen(append(cur, v))
 		}
 	}
-	gen(nil) // lists up to length 5 (the length-5 ones are used by NewSortedInts only)
-	sort.SliceStable(lists, func(i, j int) bool { return len(lists[i]) < len(lists[j]) }) // shortest witnesses first
+	// lists up to length 5 (the length-5 ones are used by NewSortedInts only), shortest witnesses first
+	gen(nil)
+	sort.SliceStable(lists, func(i, j int) bool { return len(lists[i]) < len(lists[j]) })
 	recvU := []int{0, 1, 2, 3, 4}
 	for rm := 0; rm < 32; rm += 8 {
 		rm := rm
@@ -915,6 +918,44 @@ func run(c *engine.Ctx) {
 			}
 		}
 		c.Obs(fmt.Sprintf("exhaustive:Range(start,end,step) on [-%d,%d]^3", R, R), 1)
+	})
+	// steps near the limits of int and ranges at the bottom of the int range
+	c.Unit("range/extremes", func() {
+		m := newMon(c)
+		const maxInt = int(^uint(0) >> 1)
+		const minInt = -maxInt - 1
+		for _, st := range []int{maxInt, maxInt - 1, 1 << 62, 1<<62 + 1, 1 << 40} {
+			for _, start := range []int{5, 0, -5, 1, -1} {
+				for _, d := range []int{1, 5, 9} {
+					m.rangeCase(start, start+d, st)
+					m.rangeCase(start, start-d, -st)
+					c.Obs("Range:extreme_step_cases", 2)
+				}
+			}
+		}
+		m.rangeCase(0, -7, minInt)
+		for _, st := range []int{1, 3, 7} {
+			for _, d := range []int{1, 10, 23} {
+				m.rangeCase(minInt, minInt+d, st)
+				m.rangeCase(minInt+d, minInt, -st)
+				c.Obs("Range:bottom_of_int_cases", 2)
+			}
+		}
+	})
+	// ranges that end at the top of the int range, in a unit of their own: where "i += step" wraps
+	// around, the call allocates until the memory watchdog of the engine stops the child
+	c.Unit("range/top-of-int", func() {
+		m := newMon(c)
+		const maxInt = int(^uint(0) >> 1)
+		const minInt = -maxInt - 1
+		m.rangeCase(maxInt-5, maxInt, 3)
+		m.rangeCase(maxInt, maxInt-10, -3)
+		m.rangeCase(maxInt-9, maxInt, 1)
+		m.rangeCase(maxInt-1, maxInt, 2)
+		m.rangeCase(minInt, maxInt, 1<<62)
+		m.rangeCase(maxInt, minInt, -(1 << 62))
+		m.rangeCase(maxInt, minInt, minInt)
+		c.Obs("Range:top_of_int_cases", 7)
 	})
 	c.Unit("range/seeded", func() {
 		m := newMon(c)
